@@ -7,6 +7,7 @@ any projection) are compared with (a) an independent Python evaluation over the 
 into the scan, so the evidence counts pushed-down cases separately.
 Storage leg (Rust driver `rlv lab range`): the real RowSetIterator with a KeyRange filter and the
 real start_rowid seek vs. the unfiltered scan filtered by the driver."""
+import os
 import json
 import random
 import subprocess
@@ -238,6 +239,9 @@ def run(tier, seed):
     rep.coverage.update(queries_with_range_pushed_into_scan=pushed, bound_kinds=kinds)
     rep.floor("queries whose range was pushed into the scan", pushed, n)
     rep.assumptions = ["EXPLAIN output is used only for coverage accounting (pushed or not), never for the verdict"]
+    if tier == "thorough" and not os.environ.get("VERIF_OVERLAY"):
+        import sanitize
+        sanitize.overlay(rep, "asan", timeout=5400)
     return rep.finish()
 
 
